@@ -9,11 +9,11 @@ def main(tier):
     c.build('plain', ['c02'])
     c.build('asan', ['c02'])
     if quick:
-        plain = ['h-q', 'v', 'u-q', 'r-q', 'i-q', 'm', 'text-1']
+        plain = ['h-q', 'v', 'u-q', 'r-q', 'i-q', 'ip-q', 'm', 'text-1']
         asan = ['h-a', 'v', 'r-q', 'i-q', 'text-1']
     else:
-        plain = ['h-t3', 'h-t4', 'v', 'u-t', 'r-t', 'i-t', 'm', 'text-1', 'text-2']
-        asan = ['h-a', 'h-q', 'v', 'u-q', 'r-q', 'i-q', 'm', 'text-1']
+        plain = ['h-t3', 'h-t4', 'v', 'u-t', 'r-t', 'i-t', 'ip-t', 'm', 'text-1', 'text-2']
+        asan = ['h-a', 'h-q', 'v', 'u-q', 'r-q', 'i-q', 'ip-q', 'm', 'text-1']
     for f in plain:
         c.run_family('plain', 'c02', f, per_case_timeout=5)
     for f in asan:
@@ -27,7 +27,7 @@ def main(tier):
              'listing order x orientation x 5 id patterns x 2 name orders (h-a, the sanitizer sub-family of the quick tier: <= 2 components, subsets of <= 3); v = variable attribute product; u = units (1 definition: all '
              '(reference,prefix,exponent,multiplier)^<=2; 2 and 3 definitions: every acyclic reference structure, every listing order); r = resets '
              '(variable x test_variable x order x ids x 5 shapes, two resets, resets on equivalent variables); i = imports (forests x import mask x '
-             'imported units x source sharing x ids x connection subsets incl. placeholder variables); m = math blocks x cellml prefix declared on '
+             'imported units x source sharing x ids x connection subsets incl. placeholder variables); ip = imported components at every position: every labelled forest on <= 4 (thorough 5) components x every non-empty import mask x with/without imported units x own/shared ImportSource x ids; m = math blocks x cellml prefix declared on '
              'math/cn/model; text-1 = 33 attribute positions x 11 texts; text-2 (thorough) = all pairs of 29 positions x 11^2 texts',
         assumptions=[
             'content = the canonical dump of harness/common.hpp (names, ids, units children, hierarchy, variable attributes, equivalences with mapping/connection ids, resets, '
